@@ -235,4 +235,8 @@ theorem act_sub_dot3 (m : Iso3 K) (hq : UnitQ m) (x y n : V3 K) :
   ring
 
 
+/-- `copysign` at the lawful instance (no signed zero in a field: `copysign a 0 = |a|`) -/
+@[reducible] def fieldCopysign (K : Type) [Field K] [LinearOrder K] [IsStrictOrderedRing K] : HasCopysign K :=
+  ⟨fun a b => if b < 0 then -|a| else |a|⟩
+
 end C14
